@@ -16,7 +16,9 @@ pub enum Scenario {
     /// Function::substitute with a simultaneous replacement map (replacements may mention replaced variables)
     FuncSubst { f: FuncSpec, repl: Vec<(u64, FuncSpec)>, points: Vec<Vec<(u64, F)>> },
     /// 1..3 successive Instance::substitute calls (replacements over the remaining variables), then evaluate
-    InstSubst { inst: InstSpec, calls: Vec<Vec<(u64, FuncSpec)>>, state: Vec<(u64, F)>, dep_order: Option<Vec<u64>> },
+    /// `pre_fix`: variables fixed by Instance::partial_evaluate before the first substitution (the final state
+    /// does not contain them)
+    InstSubst { inst: InstSpec, calls: Vec<Vec<(u64, FuncSpec)>>, state: Vec<(u64, F)>, dep_order: Option<Vec<u64>>, #[serde(default)] pre_fix: Vec<(u64, F)> },
     /// dependency map as it may arrive from the wire (chains, trees, diamonds, cycles, undefined references),
     /// evaluated under a forced iteration order, through evaluate or evaluate_samples
     DepGraph { inst: InstSpec, order: Option<Vec<u64>>, state: Vec<(u64, F)>, via_samples: bool },
@@ -175,8 +177,28 @@ fn graph_case(rng: &mut Rng, five: bool) -> (InstSpec, Vec<(u64, F)>) {
             c.function = Some(gen_func(rng, &free, 2));
         }
     }
+    // a dependency may also mention a variable that was fixed earlier: its value is recorded on the decision
+    // variable (substituted_value) and it is not part of the state
+    if !five && !deps.is_empty() && rng.chance(1, 4) {
+        let val = F(rng.half(2, false));
+        inst.vars.push(VarSpec { id: 300, kind: 3, bound: None, name: None, substituted: Some(val) });
+        let k = rng.usize(deps.len());
+        deps[k].1 = match deps[k].1.clone() {
+            FuncSpec::Linear { mut terms, constant } => {
+                terms.push((300, F(1.0)));
+                FuncSpec::Linear { terms, constant }
+            }
+            FuncSpec::Constant(c) => FuncSpec::Linear { terms: vec![(300, F(1.0))], constant: c },
+            FuncSpec::Quadratic { entries, linear } => {
+                let (mut t, c) = linear.unwrap_or((vec![], F(0.0)));
+                t.push((300, F(-1.0)));
+                FuncSpec::Quadratic { entries, linear: Some((t, c)) }
+            }
+            other => other,
+        };
+    }
     inst.deps = deps;
-    let state: Vec<(u64, F)> = inst.vars.iter().filter(|v| !dep_ids.contains(&v.id) && v.id != 777).map(|v| (v.id, gen_value(rng, v))).collect();
+    let state: Vec<(u64, F)> = inst.vars.iter().filter(|v| !dep_ids.contains(&v.id) && v.id != 777 && v.substituted.is_none()).map(|v| (v.id, gen_value(rng, v))).collect();
     (inst, state)
 }
 
@@ -210,18 +232,29 @@ impl Prop for C04 {
                 let dep_ids = inst.dep_ids();
                 let mut remaining: Vec<u64> = inst.vars.iter().map(|v| v.id).filter(|i| !dep_ids.contains(i)).collect();
                 rng.shuffle(&mut remaining);
+                // a third of the histories start with a partial evaluation
+                let mut pre_fix: Vec<(u64, F)> = vec![];
+                if remaining.len() >= 3 && rng.chance(1, 3) {
+                    let id = remaining[remaining.len() - 1];
+                    let v = inst.vars.iter().find(|v| v.id == id).unwrap();
+                    pre_fix.push((id, gen_value(rng, v)));
+                }
+                let fixed_ids: Vec<u64> = pre_fix.iter().map(|p| p.0).collect();
                 let ncalls = 1 + rng.usize(3);
                 let mut calls = vec![];
                 for _ in 0..ncalls {
-                    if remaining.len() < 2 {
+                    if remaining.len() - fixed_ids.len() < 2 {
                         break;
                     }
-                    let k = 1 + rng.usize((remaining.len() - 1).min(4));
+                    // replaced variables are taken from the front; fixed ones sit at the back and are never replaced
+                    let k = 1 + rng.usize((remaining.len() - fixed_ids.len() - 1).min(4));
                     let keys: Vec<u64> = remaining.drain(..k).collect();
-                    let call: Vec<(u64, FuncSpec)> = keys.iter().map(|key| (*key, gen_repl(rng, &remaining))).collect();
+                    // replacements mention remaining variables only (a fixed variable is no longer one of them)
+                    let mentionable: Vec<u64> = remaining.iter().filter(|i| !fixed_ids.contains(i)).copied().collect();
+                    let call: Vec<(u64, FuncSpec)> = keys.iter().map(|key| (*key, gen_repl(rng, &mentionable))).collect();
                     calls.push(call);
                 }
-                let state: Vec<(u64, F)> = inst.vars.iter().filter(|v| remaining.contains(&v.id)).map(|v| (v.id, gen_value(rng, v))).collect();
+                let state: Vec<(u64, F)> = inst.vars.iter().filter(|v| remaining.contains(&v.id) && !fixed_ids.contains(&v.id)).map(|v| (v.id, gen_value(rng, v))).collect();
                 let mut all_deps: Vec<u64> = inst.deps.iter().map(|d| d.0).collect();
                 all_deps.extend(calls.iter().flatten().map(|c| c.0));
                 let dep_order = if all_deps.len() >= 2 && rng.chance(1, 2) {
@@ -230,7 +263,7 @@ impl Prop for C04 {
                 } else {
                     None
                 };
-                Scenario::InstSubst { inst, calls, state, dep_order }
+                Scenario::InstSubst { inst, calls, state, dep_order, pre_fix }
             }
             6..=8 => {
                 let (inst, state) = graph_case(rng, false);
@@ -332,7 +365,7 @@ impl Prop for C04 {
                     }
                 }
             }
-            Scenario::InstSubst { inst, calls, state, dep_order } => {
+            Scenario::InstSubst { inst, calls, state, dep_order, pre_fix } => {
                 x.nontrivial = !calls.is_empty();
                 x.count("probe.scenario.instance_substitute");
                 if calls.len() >= 2 {
@@ -340,6 +373,14 @@ impl Prop for C04 {
                 }
                 let original = inst.to_v1();
                 let mut cur = original.clone();
+                if !pre_fix.is_empty() {
+                    x.count("probe.partial_evaluate_before_substitute");
+                    match x.sut(|| cur.partial_evaluate(&v1_state(pre_fix))) {
+                        Err(p) => return x.violate("C04:panic", format!("partial_evaluate panicked: {p}")),
+                        Ok(Err(e)) => return x.violate("C04:instance:partial-evaluate-fails", format!("{e:#}")),
+                        Ok(Ok(_)) => {}
+                    }
+                }
                 for (ci, call) in calls.iter().enumerate() {
                     match x.sut(|| cur.substitute(repl_map(call))) {
                         Err(p) => return x.violate("C04:panic", format!("Instance::substitute panicked: {p}")),
@@ -362,6 +403,7 @@ impl Prop for C04 {
                 apply_order(&mut cur, dep_order, x);
                 // reference: values of the replaced variables through the chain, then the original at the full assignment
                 let mut full = assign_of(state);
+                full.extend(assign_of(pre_fix));
                 for call in calls.iter().rev() {
                     let snapshot = full.clone();
                     for (k, r) in call {
@@ -392,7 +434,12 @@ impl Prop for C04 {
                 apply_order(&mut cur, order, x);
                 let reference = ref_evaluate(&cur, &assign_of(state));
                 x.count(if reference.is_ok() { "probe.graph_evaluable" } else { "probe.graph_cyclic_or_undefined" });
-                if *via_samples {
+                if inst.vars.iter().any(|v| v.substituted.is_some()) {
+                    x.count("probe.dependency_on_recorded_value");
+                }
+                // evaluate_samples does not look at values recorded on decision variables (that belongs to C06, which
+                // is not claimed): the recorded-value variant is judged through evaluate only
+                if *via_samples && inst.vars.iter().all(|v| v.substituted.is_none()) {
                     x.count("probe.via_evaluate_samples");
                     let mut samples = v1::Samples::default();
                     let mut e = v1::samples::SamplesEntry::default();
@@ -500,26 +547,26 @@ impl Prop for C04 {
                     out.push(Case { sc: Scenario::FuncSubst { f: f.clone(), repl: repl.clone(), points: points[..1].to_vec() }, ..c.clone() });
                 }
             }
-            Scenario::InstSubst { inst, calls, state, dep_order } => {
+            Scenario::InstSubst { inst, calls, state, dep_order, pre_fix } => {
                 if dep_order.is_some() {
-                    out.push(Case { sc: Scenario::InstSubst { inst: inst.clone(), calls: calls.clone(), state: state.clone(), dep_order: None }, ..c.clone() });
+                    out.push(Case { sc: Scenario::InstSubst { inst: inst.clone(), calls: calls.clone(), state: state.clone(), dep_order: None, pre_fix: pre_fix.clone() }, ..c.clone() });
                 }
                 for i in 0..inst.constraints.len() {
                     let mut n = inst.clone();
                     n.constraints.remove(i);
-                    out.push(Case { sc: Scenario::InstSubst { inst: n, calls: calls.clone(), state: state.clone(), dep_order: dep_order.clone() }, ..c.clone() });
+                    out.push(Case { sc: Scenario::InstSubst { inst: n, calls: calls.clone(), state: state.clone(), dep_order: dep_order.clone(), pre_fix: pre_fix.clone() }, ..c.clone() });
                 }
                 for i in 0..inst.removed.len() {
                     let mut n = inst.clone();
                     n.removed.remove(i);
-                    out.push(Case { sc: Scenario::InstSubst { inst: n, calls: calls.clone(), state: state.clone(), dep_order: dep_order.clone() }, ..c.clone() });
+                    out.push(Case { sc: Scenario::InstSubst { inst: n, calls: calls.clone(), state: state.clone(), dep_order: dep_order.clone(), pre_fix: pre_fix.clone() }, ..c.clone() });
                 }
                 for ci in 0..calls.len() {
                     for k in 0..calls[ci].len() {
                         if calls[ci][k].1 != FuncSpec::Constant(F(1.0)) {
                             let mut cs = calls.clone();
                             cs[ci][k].1 = FuncSpec::Constant(F(1.0));
-                            out.push(Case { sc: Scenario::InstSubst { inst: inst.clone(), calls: cs, state: state.clone(), dep_order: dep_order.clone() }, ..c.clone() });
+                            out.push(Case { sc: Scenario::InstSubst { inst: inst.clone(), calls: cs, state: state.clone(), dep_order: dep_order.clone(), pre_fix: pre_fix.clone() }, ..c.clone() });
                         }
                     }
                 }
@@ -560,6 +607,6 @@ impl Prop for C04 {
         vec!["OS randomness (seeded); iteration order of the dependency map forced explicitly by rebuilding the map"]
     }
     fn required_probes(&self, _t: Tier) -> Vec<&'static str> {
-        vec!["probe.scenario.function_substitute", "probe.scenario.instance_substitute", "probe.scenario.dependency_graph", "probe.scenario.log_encode", "probe.successive_substitutions", "probe.forced_dependency_order", "probe.graph_evaluable", "probe.graph_cyclic_or_undefined", "probe.via_evaluate_samples"]
+        vec!["probe.scenario.function_substitute", "probe.scenario.instance_substitute", "probe.scenario.dependency_graph", "probe.scenario.log_encode", "probe.successive_substitutions", "probe.partial_evaluate_before_substitute", "probe.dependency_on_recorded_value", "probe.forced_dependency_order", "probe.graph_evaluable", "probe.graph_cyclic_or_undefined", "probe.via_evaluate_samples"]
     }
 }
